@@ -550,6 +550,19 @@ var layouts = []struct {
 	{"small", func(c uint64) uint64 { return c }},
 	{"all-equal", func(c uint64) uint64 { return 0x1234 }},
 	{"all-zero", func(c uint64) uint64 { return 0 }},
+	// frames without an address (interpreted or synthetic frames) next to frames with one
+	{"some-zero-near", func(c uint64) uint64 {
+		if c%2 == 0 {
+			return 0
+		}
+		return 0x2000 + 0x10*c
+	}},
+	{"some-zero-far", func(c uint64) uint64 {
+		if c%3 == 1 {
+			return 0
+		}
+		return 0x402000 + 0x1000*c
+	}},
 	{"mixed", func(c uint64) uint64 {
 		if c%2 == 0 {
 			return 0x7f0000000000 + c
